@@ -48,3 +48,88 @@ pub(crate) fn c08_header_entry_mapping() {
     assert!(h.pack_size() == 36 + l0 + l1 + b0.location.length + b1.location.length);
     kani::cover!(l0 != l1, "one compressed and one uncompressed entry");
 }
+
+// ---------------------------------------------------------------------------
+// PackHeader::from_file: which bytes of a pack are read back as its trailer, for every size hint
+// ---------------------------------------------------------------------------
+use std::sync::atomic::{AtomicU8, Ordering::SeqCst};
+use std::sync::Arc;
+use crate::backend::decrypt::{DecryptBackend, DecryptReadBackend};
+use crate::backend::{FileType, WriteBackend};
+
+const FF_DATA: usize = 8;
+const FF_PLAIN: usize = 37; // one uncompressed entry
+const FF_HDR: usize = FF_PLAIN + 32;
+const FF_PACK: usize = FF_DATA + FF_HDR + 4;
+
+const fn ff_pack() -> [u8; FF_PACK] {
+    let mut p = [0u8; FF_PACK];
+    let mut i = 0;
+    while i < FF_DATA { p[i] = 0xD0 + i as u8; i += 1; }
+    p[FF_DATA] = 7; // nonce byte of the model AEAD frame, bytes 1..16 of the nonce are 0
+    let mut j = 0;
+    while j < FF_PLAIN { p[FF_DATA + 16 + j] = (0x80 + j as u8) ^ 0x5a; j += 1; }
+    let mut k = 0;
+    while k < 16 { p[FF_DATA + 16 + FF_PLAIN + k] = 0xA5; k += 1; }
+    p[FF_PACK - 4] = FF_HDR as u8; // little-endian u32 length field
+    p
+}
+static FF_BYTES: [u8; FF_PACK] = ff_pack();
+/// 0 = from_binary not called, 1 = called with exactly the decrypted trailer, 2 = called with anything else
+static FF_SEEN: AtomicU8 = AtomicU8::new(0);
+
+/// stub for PackHeader::from_binary (binrw is outside the claim): records whether it was handed exactly the
+/// plaintext of the pack's trailer and answers with the one-entry header that trailer stands for
+pub(crate) fn stub_header_from_binary(pack: &[u8]) -> PackFileResult<PackHeader> {
+    let mut ok = pack.len() == FF_PLAIN;
+    let mut j = 0;
+    while j < FF_PLAIN { if ok && pack[j] != 0x80 + j as u8 { ok = false; } j += 1; }
+    FF_SEEN.store(if ok { 1 } else { 2 }, SeqCst);
+    Ok(PackHeader(vec![IndexBlob {
+        id: BlobId::from(vh::mk_id(3)),
+        tpe: BlobType::Data,
+        location: BlobLocation { offset: 0, length: FF_DATA as u32, uncompressed_length: None },
+    }]))
+}
+/// stub for PackHeaderLength::from_binary (binrw `u32` little endian)
+pub(crate) fn stub_len_from_binary(data: &[u8]) -> PackFileResult<PackHeaderLength> {
+    assert!(data.len() == 4, "the length field handed to the decoder is not the 4 trailing bytes");
+    Ok(PackHeaderLength(u32::from_le_bytes([data[0], data[1], data[2], data[3]])))
+}
+
+//@ harness: c08_from_file_reads_trailer
+//@ prop: C08
+//@ tier: quick
+//@ timeout: 900
+//@ mem: 12
+//@ kernel: PackHeader::from_file (offset / length arithmetic of the trailer read, re-read branch, size checks), DecryptBackend::{read_partial, decrypt}
+//@ bound: one well-formed 81-byte pack (8 data bytes, 69-byte encrypted one-entry header, 4-byte length) served by a mock store; the size hint is a symbolic choice among None, too small (0, 10, 68), exact (69), too large (70, 77 = pack size - 4)
+//@ oracle: from_file succeeds for every hint and hands exactly the decrypted trailer (the 37 plaintext bytes) to the header decoder, the 4 trailing bytes to the length decoder; it returns the header's blob list
+//@ stub: PackHeader::from_binary / PackHeaderLength::from_binary (binrw decoding: outside) -> recording models; CryptoKey = model AEAD frame (16-byte nonce, payload ^ 0x5a, 16-byte tag; malformed frame => Err); RusticError::{new,attach_context,attach_source}, ToString, fmt::format (error text)
+//@ assume: hint + 4 <= pack size (hints come from the index entry of that pack; a hint larger than the file is damage, not a pack the library wrote)
+//@ outside: damaged / truncated packs (C05), the entry encoding itself, repair_index's use of the result
+#[kani::proof]
+#[kani::unwind(90)]
+#[kani::stub(std::backtrace::Backtrace::capture, crate::error::verif_harness::stub_backtrace_capture)]
+#[kani::stub(alloc::fmt::format, crate::error::verif_harness::stub_format)]
+#[kani::stub(crate::error::RusticError::new, crate::error::verif_harness::stub_rustic_new)]
+#[kani::stub(crate::error::RusticError::attach_context, crate::error::verif_harness::stub_attach_context)]
+#[kani::stub(crate::error::RusticError::attach_source, crate::error::verif_harness::stub_attach_source)]
+#[kani::stub(alloc::string::ToString::to_string, crate::error::verif_harness::ToStringModel::to_string)]
+#[kani::stub(crate::repofile::packfile::PackHeader::from_binary, stub_header_from_binary)]
+#[kani::stub(crate::repofile::packfile::PackHeaderLength::from_binary, stub_len_from_binary)]
+pub(crate) fn c08_from_file_reads_trailer() {
+    let rec = Arc::new(vh::RecBe::new(&FF_BYTES));
+    let be = DecryptBackend::new(rec.clone() as Arc<dyn WriteBackend>, vh::ModelKey);
+    let hint = match kani::any::<u8>() % 7 {
+        0 => None, 1 => Some(0u32), 2 => Some(10), 3 => Some(68), 4 => Some(FF_HDR as u32), 5 => Some(70), _ => Some(FF_PACK as u32 - 4),
+    };
+    let r = PackHeader::from_file(&be, PackId::from(vh::mk_id(9)), hint, FF_PACK as u32);
+    let ok = r.is_ok();
+    assert!(ok, "the trailer of a well-formed pack could not be read back");
+    assert!(FF_SEEN.load(SeqCst) == 1, "the header decoder was handed other bytes than the decrypted trailer");
+    if let Ok(h) = &r { assert!(h.0.len() == 1 && h.0[0].location.length == FF_DATA as u32); }
+    kani::cover!(hint.is_none(), "no size hint (pack not in any index): re-read branch");
+    kani::cover!(hint == Some(70), "over-guessed hint: header cut out of the first read");
+    std::mem::forget(r); std::mem::forget(be); std::mem::forget(rec);
+}
